@@ -11,6 +11,7 @@ import (
 	"path/filepath"
 	"sort"
 	"strings"
+	"sync"
 	"syscall"
 	"time"
 
@@ -23,6 +24,39 @@ type runner struct {
 	r    *vlib.Run
 	root string // scratch root (os.MkdirTemp), removed on exit
 	bin  string
+
+	mu       sync.Mutex
+	active   map[int]bool // process groups of running children
+	stopping bool         // a signal arrived: start nothing new
+}
+
+func (rn *runner) isStopping() bool {
+	rn.mu.Lock()
+	defer rn.mu.Unlock()
+	return rn.stopping
+}
+
+func (rn *runner) track(pid int, on bool) {
+	rn.mu.Lock()
+	if rn.active == nil {
+		rn.active = map[int]bool{}
+	}
+	if on {
+		rn.active[pid] = true
+	} else {
+		delete(rn.active, pid)
+	}
+	rn.mu.Unlock()
+}
+
+// killAll ends every child process group (strace and its tracee included).
+func (rn *runner) killAll() {
+	rn.mu.Lock()
+	rn.stopping = true
+	for pid := range rn.active {
+		_ = syscall.Kill(-pid, syscall.SIGKILL)
+	}
+	rn.mu.Unlock()
 }
 
 type childExit struct {
@@ -61,7 +95,7 @@ func (rn *runner) launch(runDir, stateDir string, rs *RunSpec, from, to, seq int
 	outPath := filepath.Join(runDir, fmt.Sprintf("out-%d.jsonl", seq))
 	jobPath := filepath.Join(runDir, fmt.Sprintf("job-%d.json", seq))
 	tracePath := filepath.Join(runDir, fmt.Sprintf("trace-%d.txt", seq))
-	job := Job{Dir: stateDir, Out: outPath, History: rs.H, From: from, To: to, LockOS: fault != "", NetMilli: 1500}
+	job := Job{Dir: stateDir, Out: outPath, History: rs.H, From: from, To: to, LockOS: fault != "", NetMilli: 4000}
 	b, _ := json.Marshal(job)
 	if err := os.WriteFile(jobPath, b, 0o600); err != nil {
 		return nil, childExit{}, "", err
@@ -83,10 +117,19 @@ func (rn *runner) launch(runDir, stateDir string, rs *RunSpec, from, to, seq int
 	cmd.Stderr = &stderr
 	cmd.Stdout = &stderr
 	cmd.Env = append(os.Environ(), "GOMAXPROCS=2")
-	err := cmd.Run()
-	// whatever happened, nothing of this process group may survive
-	if cmd.Process != nil {
+	if rn.isStopping() {
+		return nil, childExit{}, "", fmt.Errorf("stopping")
+	}
+	err := cmd.Start()
+	if err == nil {
+		rn.track(cmd.Process.Pid, true)
+		if rn.isStopping() {
+			_ = syscall.Kill(-cmd.Process.Pid, syscall.SIGKILL)
+		}
+		err = cmd.Wait()
+		// whatever happened, nothing of this process group may survive
 		_ = syscall.Kill(-cmd.Process.Pid, syscall.SIGKILL)
+		rn.track(cmd.Process.Pid, false)
 	}
 	var ex childExit
 	ex.stderr = stderr.String()
@@ -512,11 +555,16 @@ func (j *judge) judgeStep(i int, pre, post *Rec, before, after *DiskObs, eff Eff
 	lg.Live, lg.LiveNil = live.list(), post.LiveNil
 	j.r.Eval(1)
 	j.count("steps", 1)
-	if post.Queries == 0 && !eff.StoreCorrupt {
-		j.r.Inconclusive(fmt.Sprintf("run %d step %d: the scripted root saw no DNSKEY query", j.rs.Index, i))
+	if post.Attempts > 1 {
+		j.count("fetch_retried_after_transport_failure", post.Attempts-1)
+	}
+	transport := post.Result == "query_error" || post.Result == "timeout" || post.Result == "work_budget"
+	if !eff.StoreCorrupt && st.Answer == "" && (post.Queries == 0 || transport) {
+		j.r.Inconclusive(fmt.Sprintf("run %d step %d: the fetch of a scripted answer failed %d times (result %q, %d queries seen)", j.rs.Index, i, post.Attempts, post.Result, post.Queries))
 		j.stopped = true
 		return
 	}
+	j.count("refresh_result/"+post.Result, 1)
 	if post.HasTA != (len(live) > 0) {
 		j.violate("S2/has-trust-anchors-disagrees", fmt.Sprintf("step %d: hasTrustAnchors=%v but the live set has %d keys", i, post.HasTA, len(live)), i, nil)
 		return
@@ -831,6 +879,9 @@ type runResult struct {
 
 func (rn *runner) execRun(rs *RunSpec) *runResult {
 	res := &runResult{Index: rs.Index, Spec: rs, Cnt: map[string]int{}}
+	if rn.isStopping() {
+		return res
+	}
 	j, err := newJudge(rn, rs)
 	if err != nil {
 		rn.r.Inconclusive("bad run spec: " + err.Error())
@@ -857,6 +908,9 @@ func (rn *runner) execRun(rs *RunSpec) *runResult {
 	steps := rs.H.Steps
 	seq := 0
 	for i := 0; i < len(steps) && !j.stopped; {
+		if rn.isStopping() {
+			return res
+		}
 		if time.Since(started) > 30*time.Minute {
 			// virtual clocks are hours; real time must stay far below one
 			rn.r.Inconclusive(fmt.Sprintf("run %d took more than 30 min of real time", rs.Index))
